@@ -260,7 +260,11 @@ def gen_cases(sets, meta, tier):
 def asan_key(text, ops=''):
     if 'heap-use-after-free' in text and 'vorbis_synthesis_blockin' in text and '_vorbis_block_ripcord' in text:
         return 'blockin_after_rejected_trackonly_uaf' if 'vorbis_synthesis_trackonly' in text.split('previously allocated')[0] else 'blockin_after_rejected_packet_uaf'
-    if 'in run_ops' in text.split('allocated by')[0] and 'vorbis_' not in text.split('allocated by')[0] and ' L' in (' ' + ops):
+    if 'in run_ops' in text.split('allocated by')[0] and 'vorbis_' not in text.split('allocated by')[0] and re.search(r'\b[LO]\b', ops):
+        toks = ops.split()
+        if 'S' in toks and any(t in ('h0', 'h1') for t in toks[toks.index('S') + 1:]):
+            # named predicate: vorbis_synthesis_halfrate() toggled while a decoder built from that vorbis_info is live, then an output call
+            return 'live_halfrate_toggle_output_region_oob'
         return 'read_without_data_then_lapout'
     m = re.search(r'ERROR: AddressSanitizer: ([\w-]+)', text)
     kind = m.group(1) if m else ('ubsan' if 'runtime error' in text else 'unknown')
